@@ -1388,6 +1388,28 @@ fn pick_cfg(rng: &mut impl Rng, kind: Kind, big_shards: bool) -> (usize, usize, 
     }
 }
 
+/// A configuration whose working-space need is the same as (or just below) that of (k, r, sb) but whose shard size
+/// differs in its last block (partial <-> full): resets / handovers that must NOT allocate.
+fn same_need_cfg(rng: &mut impl Rng, kind: Kind, k: usize, r: usize, sb: usize) -> Option<(usize, usize, usize)> {
+    let blocks = sb.div_ceil(64);
+    if blocks == 0 {
+        return None;
+    }
+    let nsb = match rng.gen_range(0..4) {
+        0 => blocks * 64,
+        1 => blocks * 64 - 2,
+        2 => (blocks - 1) * 64 + 2,
+        _ => blocks * 64 - 30,
+    };
+    let (nk, nr) = if rng.gen_bool(0.3) { (r, k) } else { (k, r) };
+    let ok = match kind {
+        Kind::High => crate::dut::supports_rate("high", nk, nr),
+        Kind::Low => crate::dut::supports_rate("low", nk, nr),
+        _ => true,
+    };
+    (ok && nsb >= 2 && nk <= 400 && nr <= 400).then_some((nk, nr, nsb))
+}
+
 fn bad_cfg(rng: &mut impl Rng, k: usize, r: usize, sb: usize) -> (usize, usize, usize) {
     match rng.gen_range(0..12) {
         0 => (0, r, sb),
@@ -1571,6 +1593,11 @@ pub fn free_enc<E: MkEngine>(x: &mut Exec, rng: &mut impl Rng, len: usize, big: 
         } else if roll < t_reset || obj.kind() == Kind::Rs {
             // reset
             let (mut nk, mut nr, mut nsb) = pick_cfg(rng, obj.kind(), big);
+            if big && rng.gen_bool(0.4) {
+                if let Some(c) = same_need_cfg(rng, obj.kind(), k, r, sb) {
+                    (nk, nr, nsb) = c;
+                }
+            }
             if rng.gen_bool(0.25) {
                 (nk, nr, nsb) = bad_cfg(rng, nk, nr, nsb);
             }
@@ -1593,7 +1620,12 @@ pub fn free_enc<E: MkEngine>(x: &mut Exec, rng: &mut impl Rng, len: usize, big: 
         } else {
             // rehouse into another kind (valid configuration: a failing rehouse consumes the object)
             let kd = *[Kind::High, Kind::Low, Kind::Default].choose(rng).unwrap();
-            let (nk, nr, nsb) = pick_cfg(rng, kd, big);
+            let (mut nk, mut nr, mut nsb) = pick_cfg(rng, kd, big);
+            if big && rng.gen_bool(0.4) {
+                if let Some(c) = same_need_cfg(rng, kd, k, r, sb) {
+                    (nk, nr, nsb) = c;
+                }
+            }
             let st = step_json("rehouse", &[("k", util::enc(nk)), ("r", util::enc(nr)), ("sb", util::enc(nsb))], &[("kind", kd.name())]);
             let before = obj.snap().1.map(|s| (s.data_ptr, s.data_capacity));
             let (res, allocs) = alloc::measure(|| guarded!(obj.rehouse(kd, nk, nr, nsb)));
@@ -1828,6 +1860,11 @@ pub fn free_dec<E: MkEngine>(x: &mut Exec, rng: &mut impl Rng, len: usize, big: 
                     }
                 }
             }
+            if big && rng.gen_bool(0.4) {
+                if let Some(c) = same_need_cfg(rng, obj.kind(), k, r, sb) {
+                    (nk, nr, nsb) = c;
+                }
+            }
             if rng.gen_bool(0.25) {
                 (nk, nr, nsb) = bad_cfg(rng, nk, nr, nsb);
             }
@@ -1857,7 +1894,12 @@ pub fn free_dec<E: MkEngine>(x: &mut Exec, rng: &mut impl Rng, len: usize, big: 
             trace_event(x, "dec", &st, &ret, &snap, None, &allocs, ptr_same);
         } else {
             let kd = *[Kind::High, Kind::Low, Kind::Default].choose(rng).unwrap();
-            let (nk, nr, nsb) = pick_cfg(rng, kd, big);
+            let (mut nk, mut nr, mut nsb) = pick_cfg(rng, kd, big);
+            if big && rng.gen_bool(0.4) {
+                if let Some(c) = same_need_cfg(rng, kd, k, r, sb) {
+                    (nk, nr, nsb) = c;
+                }
+            }
             let st = step_json("rehouse", &[("k", util::enc(nk)), ("r", util::enc(nr)), ("sb", util::enc(nsb))], &[("kind", kd.name())]);
             let before = obj.snap().1.map(|s| (s.data_ptr, s.data_capacity));
             let (res, allocs) = alloc::measure(|| guarded!(obj.rehouse(kd, nk, nr, nsb)));
